@@ -317,6 +317,13 @@ def check(prog, rep, tier):
                       'writes, except the BGP-LS protocol id, whose consumer is deferred until after the loop')
     rep.rule('R15.e', 'element decoders are total on well-formed elements: no ord() of an integer-indexed bytes '
                       'value on a live (Python 3) path')
+    rep.rule('R15.h', 'element decoders are total on well-formed elements (tables): every constant key the decoders look up in a '
+                      'table of yabgp.common.constants is in that table (a derived table that lost an entry turns one '
+                      'element kind into a KeyError, which truncates the whole list)')
+    rep.rule('R15.g', 'no hidden sharing between elements: a memo table handed into an element decoder (tested with `in` / .get '
+                      'and filled in the same loop) is keyed by every parameter of the decoder that the skipped code reads')
+    common.const_key_lookups(prog, rep, 'R15.h', lambda fn: fn.module.name.startswith('yabgp.message'), 10)
+    element_memo_keys(prog, rep)
     rep.assumptions += ['equality of decode(a||b) and decode(a)+decode(b) on concrete pools is not decided']
     nloops = 0
     for f, w in decoder_loops(prog):
@@ -594,3 +601,48 @@ def check(prog, rep, tier):
     t = ast.parse("def f(v):\n    return ord(v[0])\n")
     if not any(isinstance(n, ast.Call) and getattr(n.func, 'id', None) == 'ord' for n in ast.walk(t)):
         raise AnalysisError('ord scanner self-check failed')
+
+
+
+def element_memo_keys(prog, rep):
+    nfun = 0
+    bad = []
+    for f in prog.all_functions():
+        if not f.module.name.startswith('yabgp.message'):
+            continue
+        nfun += 1
+        params = [p for p in f.params if p not in ('cls', 'self')]
+        for p in params:
+            stores = [n for n in ast.walk(f.node) if isinstance(n, ast.Assign) and isinstance(n.targets[0], ast.Subscript)
+                      and src_of(n.targets[0].value) == p]
+            tests = [n for n in ast.walk(f.node) if isinstance(n, ast.Compare) and isinstance(n.ops[0], (ast.In, ast.NotIn))
+                     and src_of(n.comparators[0]) == p]
+            gets = [n for n in ast.walk(f.node) if isinstance(n, ast.Call) and isinstance(n.func, ast.Attribute)
+                    and n.func.attr == 'get' and src_of(n.func.value) == p]
+            if not stores or not (tests or gets):
+                continue
+            # p is a memo handed in by the caller; what is its key made of?
+            keyexpr = stores[0].targets[0].slice
+            keytxt = common.unalias(f.node, keyexpr)
+            keynames = set(x.id for x in ast.walk(ast.parse(keytxt, mode='eval')) if isinstance(x, ast.Name))
+            loops = [w for w in ast.walk(f.node) if isinstance(w, (ast.While, ast.For))
+                     and any(x is stores[0] for x in ast.walk(w))]
+            region = loops[0] if loops else f.node
+            read = set(x.id for x in ast.walk(region) if isinstance(x, ast.Name) and isinstance(x.ctx, ast.Load))
+            missing = [q for q in params if q != p and q in read and q not in keynames
+                       and not any(isinstance(a, ast.Assign) and any(isinstance(t, ast.Name) and t.id == q for t in a.targets)
+                                   for a in ast.walk(region))]
+            # the data parameter the loop consumes is represented in the key by the slices taken from it
+            missing = [q for q in missing if not any(
+                isinstance(a, ast.Assign) and isinstance(a.value, ast.Subscript) and src_of(a.value.value) == q
+                for a in ast.walk(f.node))]
+            if missing:
+                bad.append((f, stores[0], p, missing, keytxt))
+    for f, st, p, missing, keytxt in bad:
+        key = 'memo-key:%s:%s' % (f.qualname, p)
+        rep.bad('R15.g', key, file=f.file, line=st.lineno, func=f.qualname,
+                found='the memo %s is keyed by %s, but the code it short-cuts also depends on %s: an element decoded '
+                      'earlier in the same list decides how a later one is decoded' % (p, keytxt, ', '.join(missing)),
+                expected='every input of the skipped code in the key', key=key)
+    if not bad:
+        rep.ok('R15.g', 'element-memos', found='%d decoder functions, no memo parameter with an incomplete key' % nfun)
